@@ -84,7 +84,7 @@ fn c05_o1b_sockaddr() {
 
 //@ ob: C05.O1c
 //@ tier: off
-//@ cap: 1200
+//@ cap: 2400
 //@ also: C10
 //@ desc: bytes_to_nodes4 is total on lengths {0, 25, 26, 27, 52}: Ok iff a multiple of 26, yielding len/26 nodes with id = bytes[0..20], ip = bytes[20..24], port big-endian bytes[24..26]; nodes4_to_bytes is its inverse
 //@ bounds: the five stated lengths, contents symbolic; unwind 28
